@@ -105,23 +105,25 @@ theorem buildBad_nil_iff (ps : List Pat) : buildBad ps = [] ↔ buildOk ps = tru
 
 /-! ### `check_meta_collisions` -/
 
+/-- A row collides with none of the three meta-agent routes. -/
+def metaFree (p : Pat) : Prop :=
+  areAmbiguous metaMesh p = false ∧ areAmbiguous metaNode p = false ∧ areAmbiguous metaLane p = false
+
 theorem metaLoop_routes_nil (a : MetaAcc) (i : Nat) (ps : List Pat) :
-    (metaLoop a i ps).routes = [] ↔
-      a.routes = [] ∧ ∀ p ∈ ps, areAmbiguous metaNode p = false ∧ areAmbiguous metaLane p = false := by
+    (metaLoop a i ps).routes = [] ↔ a.routes = [] ∧ ∀ p ∈ ps, metaFree p := by
   induction ps generalizing a i with
   | nil => simp [metaLoop]
   | cons p rest ih =>
-    simp only [metaLoop, ih, List.mem_cons, forall_eq_or_imp]
-    by_cases h : (areAmbiguous metaNode p || areAmbiguous metaLane p) = true
+    simp only [metaLoop, ih, List.mem_cons, forall_eq_or_imp, metaFree]
+    by_cases h : (areAmbiguous metaMesh p || areAmbiguous metaNode p || areAmbiguous metaLane p) = true
     · simp only [h, ↓reduceIte, List.append_eq_nil_iff, List.cons_ne_self, and_false, false_and, false_iff]
-      rintro ⟨_, ⟨h1, h2⟩, _⟩
-      simp [h1, h2] at h
+      rintro ⟨_, ⟨h0, h1, h2⟩, _⟩
+      simp [h0, h1, h2] at h
     · simp only [h, Bool.false_eq_true, ↓reduceIte]
       simp only [Bool.or_eq_true, not_or, Bool.not_eq_true] at h
-      simp [h.1, h.2]
+      simp [h.1.1, h.1.2, h.2]
 
-theorem checkMeta_none_iff (ps : List Pat) :
-    checkMeta ps = none ↔ ∀ p ∈ ps, areAmbiguous metaNode p = false ∧ areAmbiguous metaLane p = false := by
+theorem checkMeta_none_iff (ps : List Pat) : checkMeta ps = none ↔ ∀ p ∈ ps, metaFree p := by
   unfold checkMeta
   simp only [List.isEmpty_iff]
   constructor
@@ -163,11 +165,11 @@ theorem buildOk_with_meta (ps : List Pat) (hb : buildOk ps = true) (hm : checkMe
     have := (checkMeta_none_iff ps).mp hm p hp
     simp only [List.mem_cons, List.not_mem_nil, or_false] at hq
     rcases hq with rfl | rfl
-    · rw [areAmbiguous_comm]; exact this.1
-    · rw [areAmbiguous_comm]; exact this.2
+    · rw [areAmbiguous_comm]; exact this.2.1
+    · rw [areAmbiguous_comm]; exact this.2.2
 
-theorem buildOk_with_all_meta (ps : List Pat) (hb : buildOk ps = true) (hm : checkMeta ps = none)
-    (hmesh : ∀ p ∈ ps, areAmbiguous metaMesh p = false) : buildOk (ps ++ metaRows) = true := by
+theorem buildOk_with_all_meta (ps : List Pat) (hb : buildOk ps = true) (hm : checkMeta ps = none) :
+    buildOk (ps ++ metaRows) = true := by
   rw [metaRows_eq, buildOk_append]
   refine ⟨hb, ?_, ?_⟩
   · simp [buildOk, node_lane_not_ambiguous, mesh_node_not_ambiguous, mesh_lane_not_ambiguous]
@@ -175,9 +177,9 @@ theorem buildOk_with_all_meta (ps : List Pat) (hb : buildOk ps = true) (hm : che
     have := (checkMeta_none_iff ps).mp hm p hp
     simp only [List.mem_cons, List.not_mem_nil, or_false] at hq
     rcases hq with rfl | rfl | rfl
-    · rw [areAmbiguous_comm]; exact hmesh p hp
     · rw [areAmbiguous_comm]; exact this.1
-    · rw [areAmbiguous_comm]; exact this.2
+    · rw [areAmbiguous_comm]; exact this.2.1
+    · rw [areAmbiguous_comm]; exact this.2.2
 
 theorem registered_append (ps qs : List Pat) (h1 : Registered ps) (h2 : Registered qs) : Registered (ps ++ qs) := by
   intro p hp
